@@ -248,7 +248,7 @@ Cat(k) ==
 Rerun == /\ AllowRerun /\ status = "raised" /\ ~reran
          /\ reran' = TRUE /\ status' = "running" /\ gen' = 1 /\ faults' = MaxFaults            \* fault-free repeat, overwrite = True
          /\ pc' = [t \in Tasks |-> IF t = MAIN THEN <<"start", 0>> ELSE IF t[1] = "proc" THEN <<"w", 0>> ELSE <<"c", 0>>]
-         /\ att' = [t \in Tasks |-> 0] /\ wstart' = [t \in Tasks |-> <<"start", 0>>]
+         /\ att' = [t \in Tasks |-> 0] /\ wstart' = pc'
          /\ data' = [k \in Outs |-> {}] /\ result' = [k \in Outs |-> {}] /\ phase' = "main" /\ writes' = {}
          /\ UNCHANGED <<fs, assign>>
 
@@ -257,7 +257,7 @@ Init == /\ assign \in [Ins -> SUBSET Outs]
                                      ELSE IF PrevParts > 0 /\ p \in {META, CMETA} THEN File({-100})
                                      ELSE IF p \in {OUT(j) : j \in PrevOuts} THEN File({-(p.k + 1)}) ELSE Absent]
         /\ pc = [t \in Tasks |-> IF t = MAIN THEN <<"start", 0>> ELSE IF t[1] = "proc" THEN <<"w", 0>> ELSE <<"c", 0>>]
-        /\ att = [t \in Tasks |-> 0] /\ wstart = [t \in Tasks |-> <<"start", 0>>]
+        /\ att = [t \in Tasks |-> 0] /\ wstart = pc
         /\ data = [k \in Outs |-> {}] /\ result = [k \in Outs |-> {}]
         /\ status = "running" /\ faults = 0 /\ gen = 0 /\ reran = FALSE /\ writes = {} /\ phase = "main"
 Next == \/ /\ Running /\ \/ MainStart \/ MainOverwrite \/ MainMkdirs \/ MainBarrier1 \/ MainBarrier2 \/ MainMoves \/ MainMeta \/ MainRead
